@@ -297,6 +297,8 @@ class Expr(Container):
             return self
         self._expr = Add(*[t.make_real(return_sympy=True)
                            for t in self.terms])
+        # the renamed amplitudes may carry a declared bra-ket symmetry
+        self._apply_tensor_braket_sym()
         return self
 
     def _apply_tensor_braket_sym(self):
